@@ -114,7 +114,7 @@ def main():
     out.append(f'Round 2 (fresh seeds): {len(r2)} confirmed; {len(r2b)} reported by the checker frozen before the seeds were looked at (the unbiased figure), {len(r2f)} by the final checker.')
     if r3:
         r3f = [m for m in r3 if m.get('detection', {}).get('detected')]
-        out.append(f'Round 3 (fresh seeds against the final checker, no rule written afterwards): {len(r3)} confirmed, {len(r3f)} reported.')
+        out.append(f'Round 3 (fresh seeds against the then-final checker, no rule written in response to them): {len(r3)} confirmed, {len(r3f)} reported.')
     out.append('')
     d = open(f'{V}/DESIGN.md').read()
     head = d.split(MARK)[0].rstrip() + '\n\n'
